@@ -114,7 +114,7 @@ fn rfc_slice(r: &Range, len: u64) -> Result<(u64, u64), ()> {
 }
 
 const BUCKETS: [&str; 2] = ["b1", "b2"];
-const KEYS: [&str; 5] = ["a", "b", "d/x", "d/y", "e"];
+const KEYS: [&str; 7] = ["a", "ab", "b", "d/x", "d/xz", "d/y", "e"];
 const SIZES: [usize; 7] = [0, 1, 5, 4095, 4096, 4097, 12291];
 
 pub async fn history(base: &PathBuf, seed: u64, steps: usize) -> Vec<Value> {
@@ -303,7 +303,7 @@ pub async fn history(base: &PathBuf, seed: u64, steps: usize) -> Vec<Value> {
                 }
             }
         } else if op < 88 {
-            let prefix = rng.pick(&[None, Some("d"), Some("d/"), Some("a"), Some("d/x"), Some("z")]).map(|s| s.to_string());
+            let prefix = rng.pick(&[None, Some("d"), Some("d/"), Some("a"), Some("d/x"), Some("z"), Some("d/x"), Some("a")]).map(|s| s.to_string());
             let start_after = rng.pick(&[None, None, Some("a"), Some("d/x"), Some("c"), Some("e")]).map(|s| s.to_string());
             log.push(format!("list {bucket} prefix={prefix:?} start_after={start_after:?}"));
             let mut b = ListObjectsV2Input::builder();
